@@ -19,6 +19,7 @@ pub mod sample;
 pub mod sem;
 pub mod semgen;
 pub mod skel;
+pub mod spans;
 pub mod syngen;
 
 pub use ctx::{Ctx, Tier};
